@@ -27,7 +27,7 @@ impl Monitor for C06 {
         "C06"
     }
     fn gens(&self, tier: Tier) -> Vec<Gen> {
-        vec![gen("single-fault", tier.pick(600, 40_000, 3)), gen("double-fault", tier.pick(60, 6_000, 0)), gen("expiry", tier.pick(300, 10_000, 2))]
+        vec![gen("single-fault", tier.pick(600, 200_000, 3)), gen("double-fault", tier.pick(60, 30_000, 0)), gen("expiry", tier.pick(300, 50_000, 2))]
     }
     fn rule(&self) -> String {
         "single-fault: a base history of 3-10 transactions over {silent, RX1 hit, RX2 hit, invalid frame, garbage, Class C downlink, confirmed+ACK, confirmed silent} is first run fault-free to count its K radio calls, then re-run K times with a radio error injected at call k (tx/setup_rx/rx_single/rx_continuous/low_power, nb: TxRequest/RxRequest/CancelRx/Phy), the application carrying on with the next sends; double-fault: two fault positions; expiry: sessions starting at 2^32-4..2^32-1. Every data frame handed to the radio is decoded by the reference codec; counters must be strictly increasing until SessionExpired. Class = (front-end, history shape, fault call kind, fault position class, start class).".into()
